@@ -16,12 +16,17 @@ impl<'b, R: BufRead> XmlSource<'b, &'b mut Vec<u8>> for R {
 //@extract buffered::remove_utf8_bom | src/reader/buffered_reader.rs :: impl<'b, R: BufRead> XmlSource<'b, &'b mut Vec<u8>> for R :: invoke impl_buffered_source :: fn remove_utf8_bom | serves=C02,C17,C18
  #[verifier::loop_isolation(false)]
  #[verifier::allow_complex_invariants]
- fn remove_utf8_bom(&mut self) -> (r: io::Result<()>) {
+ fn remove_utf8_bom(&mut self) -> (r: io::Result<()>)
+        ensures
+            // the sniff sees exactly the first piece the reader delivers, however often it is interrupted before (C02, C18)
+            r is Ok ==> final(self).rest() == (if old(self).next_len() >= 3 { strip_bom(old(self).rest()) } else { old(self).rest() }),
+ {
             use crate::encoding::UTF8_BOM;
 
             let __lv1; loop
-                invariant_except_break self.rest() == old(self).rest(), self.nfaults() == old(self).nfaults(),
+                invariant_except_break self.rest() == old(self).rest(), self.nfaults() == old(self).nfaults(), self.next_len() == old(self).next_len(),
                 ensures
+                    __lv1 is Ok ==> self.rest() == (if old(self).next_len() >= 3 { strip_bom(old(self).rest()) } else { old(self).rest() }),
                     (__lv1 is Err) == (self.nfaults() > old(self).nfaults()), self.nfaults() >= old(self).nfaults(),
                     match __lv1 {
                         Ok(()) => self.rest() == old(self).rest() || self.rest() == strip_bom(old(self).rest()),
